@@ -127,6 +127,17 @@ def random_cases(family, rng, count):
                     t += 1 + Fraction(rng.choice([-1, 0, 0, 1, 2]), 2 ** 20)
                 if len(set(b_ - a_ for a_, b_ in zip(jx, jx[1:]))) > 1:
                     out.append({"fn": "repeat", "x": [R(v) for v in jx], "y": [R(Fraction(rng.randint(-20, 20), 4)) for _ in jx], "r": rng.randint(2, 6)})
+            if n >= 3 and rng.random() < 0.3:
+                # Weaver.repeat after the series was resampled onto a grid with the SAME number of points (the reference keeps
+                # the old grid): exact linear interpolation on the equally spaced grid
+                hx = [xs[0] + span * Fraction(i, n - 1) for i in range(n - 1)] + [xs[-1]]
+                hy = []
+                for q in hx:
+                    j = max(i for i in range(n) if xs[i] <= q)
+                    hy.append(ys[j] if j == n - 1 else ys[j] + (ys[j + 1] - ys[j]) * (q - xs[j]) / (xs[j + 1] - xs[j]))
+                if all(abs(v.numerator) < 10 ** 7 and v.denominator < 10 ** 7 for v in hx + hy):
+                    out.append({"fn": "repeat", "x0": X, "y0": Y, "x": [R(v) for v in hx], "y": [R(v) for v in hy], "r": rng.choice([1, 2, 3, 4]),
+                                "pre": [{"k": "interpolate_n", "n": n, "method": "linear"}]})
             if rng.random() < 0.3:
                 # decimal abscissae (tenths, twentieths, hundredths): the period is not representable in binary
                 den = rng.choice([10, 20, 100, 5])
@@ -175,6 +186,15 @@ def random_cases(family, rng, count):
             xs2, ys2 = rseries(rng, 2, 12, den=2)
             out.append({"fn": "trend", "x": [R(v) for v in xs2], "y": [R(v) for v in ys2], "c": c, "normalized": rng.random() < 0.5,
                         "container": rng.choice(["array", "list", "series"])})
+            if rng.random() < 0.4:
+                # integer abscissae in a (possibly narrow / unsigned) integer array and a callable written with integer coefficients
+                ix, t = [], rng.choice([0, 1, 3, 100, 200])
+                for _ in range(rng.randint(2, 10)):
+                    ix.append(t)
+                    t += rng.choice([1, 2, 5])
+                out.append({"fn": "trend", "x": [R(v) for v in ix], "y": [R(Fraction(rng.randint(-20, 20), 4)) for _ in ix],
+                            "c": [R(rng.randint(-9, 9)), R(rng.choice([-3, -1, 1, 2])), R(rng.choice([0, 0, 1, -1, 2]))], "normalized": False, "intcoef": True,
+                            "xcontainer": rng.choice(["uint8", "int8", "uint16", "int16", "int32", "int"])})
             lo = Fraction(rng.randint(-20, 20), 4)
             hi = lo + Fraction(rng.randint(1, 40), 4)
             if len(set(ys)) > 1:
@@ -206,7 +226,7 @@ def random_cases(family, rng, count):
                     k["container"] = rng.choice(["int", "int32", "list"])
     # the same requests far from the origin of the time axis (epoch seconds, 2^40): an exact translation, see fnexec.xoff
     for k in out:
-        if k["fn"] in ("truncate", "slice_value", "repeat", "interp") and rng.random() < 0.15 \
+        if k["fn"] in ("truncate", "slice_value", "repeat", "interp") and "x0" not in k and rng.random() < 0.15 \
                 and k.get("container", "array") in ("array", "list", "series") and "xcontainer" not in k and "qcontainer" not in k \
                 and all(r[1] in (1, 2, 4, 8, 16, 32, 64, 128, 256) for r in k["x"]):        # translated abscissae must stay exactly representable
             k["xoff"] = [rng.choice([-1, 1]), rng.choice([31, 40])]
@@ -214,7 +234,7 @@ def random_cases(family, rng, count):
 
 
 CASE_KEYS = ("fn", "x", "y", "r", "a", "b", "left", "right", "lr", "rr", "start", "stop", "step", "explicit_none", "q", "n", "mode",
-             "qcontainer", "xcontainer", "explicit_method", "x0", "y0", "pre", "c", "normalized", "axis", "other", "lo", "hi", "op", "v", "container", "method", "m", "b", "xoff", "r_kind")   # x0 / y0 / pre are already listed
+             "qcontainer", "xcontainer", "explicit_method", "x0", "y0", "pre", "c", "normalized", "axis", "other", "lo", "hi", "op", "v", "container", "method", "m", "b", "xoff", "r_kind", "intcoef")   # x0 / y0 / pre are already listed
 
 
 def case_of_event(ev):
